@@ -24,6 +24,10 @@ CircuitsMedium ==
     [kind |-> "SumVec", max |-> 5, len |-> 3, chunk |-> 4], [kind |-> "Histogram", len |-> 10, chunk |-> 3],
     [kind |-> "Histogram", len |-> 7, chunk |-> 7],
     [kind |-> "Multihot", len |-> 6, maxw |-> 3, chunk |-> 3], [kind |-> "L1BoundSum", max |-> 6, len |-> 3, chunk |-> 5] }
+\* long inputs (>= 128 field elements) for the Prio3 traces: block-wise processing paths
+CircuitsBig ==
+  { [kind |-> "Histogram", len |-> 130, chunk |-> 12], [kind |-> "SumVec", max |-> 1, len |-> 140, chunk |-> 13],
+    [kind |-> "Multihot", len |-> 126, maxw |-> 3, chunk |-> 10], [kind |-> "L1BoundSum", max |-> 3, len |-> 64, chunk |-> 11] }
 Circuits == IF P = 17 THEN CircuitsSmall ELSE CircuitsMedium
 
 SeqsLE(len, max, bound) == {m \in [1..len -> 0..max] : SeqSumInt(m) <= bound}
@@ -81,6 +85,7 @@ Probes(c) ==
   \cup {[op |-> "query", lens |-> <<nat(InputLen(c) + a), nat(ProofLen(c) + b), nat(QueryRandLen(c) + d), nat(JointRandLen(c) + e)>>,
     ok |-> QueryDefined(c, nat(InputLen(c) + a), nat(ProofLen(c) + b), nat(QueryRandLen(c) + d), nat(JointRandLen(c) + e))] : a \in Deltas, b \in Deltas, d \in Deltas, e \in Deltas}
   \cup {[op |-> "decide", lens |-> <<nat(VerifierLen(c) + a)>>, ok |-> DecideDefined(c, nat(VerifierLen(c) + a))] : a \in {-1, 0, 1, 2}}
+InitEncBig == st \in UNION {{[ph |-> "enc", c |-> c, m |-> m] : m \in Meas(c)} : c \in CircuitsBig}
 InitProbe == st \in {[ph |-> "probe", c |-> c] : c \in Circuits}
 
 \* a completed run: everything the FLP computes, evaluated once and stored in the state
@@ -115,6 +120,11 @@ Lengths == IsRun => /\ Len(st.proof) = ProofLen(st.c)
 Completeness == (IsRun /\ ValidInput(st.c, st.inp) /\ ~st.root) => Decide(st.c, st.whole)
 ValidAgrees == (IsRun /\ ValidInput(st.c, st.inp)) => \A i \in 1..EvalOutLen(st.c) : Valid(st.c, st.inp, st.jr, 1)[i] = 0
 Linearity == (IsRun /\ ~st.root) => VecSum(st.vshares, VerifierLen(st.c)) = st.whole
+\* the barycentric shortcut used for wire polynomials equals the definition
+LagEvalRootsAgrees == (IsRun /\ ~st.root) =>
+   LET g == Gadget(st.c)  w == Wires(st.c, st.proof, CallInputs(st.c, st.inp, st.jr, 1))  r == st.qr[Len(st.qr)] IN
+   \A i \in 1..g.arity : LagEvalRoots(w[i], r) = LagEval(Nodes(WireLen(st.c)), w[i], r)
+                          /\ LagEvalRoots(w[i], Nodes(WireLen(st.c))[1 + (i % WireLen(st.c))]) = w[i][1 + (i % WireLen(st.c))]
 \* an honest proof always passes the gadget test; what decides is the circuit output
 HonestProofGadgetTest == (IsRun /\ ~st.root) =>
    LET v == st.whole  g == Gadget(st.c) IN GEval(st.c, SubSeq(v, 2, 1 + g.arity)) = v[2 + g.arity]
